@@ -1,0 +1,43 @@
+//go:build verif
+
+package ls
+
+import (
+	"context"
+
+	lsp "go.lsp.dev/protocol"
+)
+
+// Exported wrappers for the verification harness (/verif, property C23). Adds nothing to normal builds.
+
+// VerifResolvePosition exposes resolvePosition.
+func VerifResolvePosition(content string, line, character uint32) (int, error) {
+	return resolvePosition(content, lsp.Position{Line: line, Character: character})
+}
+
+// VerifID is an identifier node as Definition sees it.
+type VerifID struct {
+	Offset, Endoffset int
+	Kind              int
+	Decl              bool
+	Line, Column      int
+	Text              string
+}
+
+// VerifCollectIDs exposes collectIDs together with the id methods Definition uses.
+func VerifCollectIDs(ctx context.Context, filename, content string) []VerifID {
+	var ret []VerifID
+	for _, id := range collectIDs(ctx, filename, content) {
+		line, col := id.Node.LineColumn()
+		ret = append(ret, VerifID{
+			Offset:    id.Offset(),
+			Endoffset: id.Endoffset(),
+			Kind:      id.Kind(),
+			Decl:      id.IsDecl(),
+			Line:      line,
+			Column:    col,
+			Text:      id.Text(),
+		})
+	}
+	return ret
+}
